@@ -11,6 +11,7 @@ Plan gen_c29(sk::Rng& r, Tier) {
     Plan p;
     gen_w4_knobs(p, r);
     p.knobs["chunks"] = r.pick<std::int64_t>({0, 1, 2, 3, 4, 6});
+    p.knobs["bulk"] = r.chance(1, 5) ? r.pick<std::int64_t>({40, 190, 230, 420}) : 0;  // further chunks placed straight into the daemon's node (a long ENTRIES value)
     p.knobs["advertise"] = static_cast<std::int64_t>(r.below(3));  // 0 none, 1 one manual endpoint, 2 allow-private (several auto endpoints)
     const int n = static_cast<int>(r.range(2, 6));
     for (int i = 0; i < n; ++i) {
@@ -60,6 +61,20 @@ void exec_c29(const Plan& p, Ctx& ctx) {
         const auto digest = en::crypto::Sha256::digest(std::span<const std::uint8_t>(body));
         model.insert(hz::hex(digest.data(), digest.size()));
         sk::sleep_ns(5100 * kMs);  // stay under the STORE rate limit (C28)
+    }
+    if (const auto bulk = p.knob("bulk", 0); bulk > 0) {
+        const bool ok = d.with_node([&](en::Node& n) {
+            for (std::int64_t k = 0; k < bulk; ++k) {
+                const auto pl = make_payload(40, 910000 + static_cast<std::uint64_t>(k));
+                en::ChunkData data(pl.begin(), pl.end());
+                en::ChunkId id{};
+                const auto dg = en::crypto::Sha256::digest(std::span<const std::uint8_t>(data));
+                std::copy(dg.begin(), dg.end(), id.begin());
+                n.store_chunk(id, std::move(data), std::chrono::seconds(900));
+                model.insert(hz::hex(dg.data(), dg.size()));
+            }
+        });
+        if (ok) ctx.boundary("response_header_over_16k"); else ctx.probe("bulk_store_failed");
     }
     if (model.size() >= 2) ctx.boundary("multi_line_value");
     const std::vector<std::string> cli_base{"eph", "--control-port", std::to_string(d.control_port)};
@@ -162,7 +177,7 @@ Scenario make_c29() {
     s.assumptions = {"ground truth for multi-line values is the daemon's state (stored chunk ids) and the raw bytes it put on the wire"};
     s.rule = "plan = 0..6 stored chunks, advertise configuration, network knobs + 2..6 reads (eph list/defaults/status, ControlClient LIST/DEFAULTS/STATUS/METRICS); non-trivial = at least two chunks (a multi-line value); distinct = plan hash";
     s.gen = gen_c29; s.exec = exec_c29; s.kernel_knobs = w4_knobs;
-    s.quick_runs = 1500; s.thorough_runs = 60000; s.quick_secs = 55; s.thorough_secs = 900;
+    s.quick_runs = 1200; s.thorough_runs = 60000; s.quick_secs = 55; s.thorough_secs = 900;
     return s;
 }
 Registrar reg_c29(make_c29);
